@@ -72,6 +72,9 @@ def stages(tier, rng, only=None):
     out.append(ac.stage("reuse_other_scheme", PID, lambda: ac.reuse_scheme_cases(
         grids.datasets(3, 2)[::3] + [ac.random_dataset(rng, 6, 5, nmin=3) for _ in range(n_rand // 2)], BIO, SCHEMES,
         rng, flags=(0,)), _nt))
+    out.append(ac.stage("lookalike_rankings", PID, lambda: ac.cases(ac.lookalike_datasets(rng, 200 if tier == "quick" else 1500),
+                                                                    BIO, SCHEMES, namings=["weird"]), _nt))
+    out.append(ac.stage("hard_corpus", PID, lambda: ac.corpus_cases(BIO, flags=(0,)), _nt))
     out.append(ac.stage("threshold", PID, lambda: ac.cases([ac.random_dataset(rng, 5, 4, nmin=3) for _ in range(n_rand)],
                                                            BIO, FINE), _nt))
     if tier == "thorough":
